@@ -28,6 +28,9 @@ pub enum PeerOp {
     Data { dseq: i16, len: u16 },
     /// pure ST_STATE: ack_nr = highest seq seen from the socket − back
     Ack { back: i16, wnd: u32, sack: Option<Vec<u8>> },
+    /// pure ST_STATE advancing the previous cumulative ack by `adv` packets (clamped to what the
+    /// socket has sent)
+    AckAdv { adv: u16, wnd: u32, sack: Option<Vec<u8>> },
     /// repeat the last pure ACK unchanged n times (1 ms apart)
     DupAck(u8),
     /// ST_FIN with seq = next_seq + dseq
@@ -423,6 +426,20 @@ pub fn run(case: &SpCase, trace: bool) -> SpResult {
                     PeerOp::Ack { back, wnd, sack } => {
                         let mut p = peer.base(refparse::ST_STATE);
                         p.ack = peer.ack_base(expected_sock_first).wrapping_sub(*back as u16);
+                        p.wnd = *wnd;
+                        if let Some(s) = sack {
+                            p.exts.push((1, s.clone()));
+                        }
+                        peer.last_ack = p.ack;
+                        peer.last_wnd = *wnd;
+                        peer.last_pure_ack = Some(p.clone());
+                        peer.send(p);
+                    }
+                    PeerOp::AckAdv { adv, wnd, sack } => {
+                        let mut p = peer.base(refparse::ST_STATE);
+                        let high = peer.ack_base(expected_sock_first);
+                        let room = dist(high, peer.last_ack).max(0) as u16;
+                        p.ack = peer.last_ack.wrapping_add((*adv).min(room));
                         p.wnd = *wnd;
                         if let Some(s) = sack {
                             p.exts.push((1, s.clone()));
